@@ -66,6 +66,10 @@ def main():
             for j in range(len(agg[m])):
                 om[(m, j)] = 0.01 + 0.004 * (3 * m + j)
                 hr[(m, j)] = 0.1 + 0.23 * ((2 * m + j) % 4)
+                if max(agg[m][j]) > 8:
+                    # many declared levels: overlaps between highly excited
+                    # levels matter only for sizeable displacements
+                    hr[(m, j)] = 2.0 - 0.5 * m
         J = numpy.zeros((N, N))
         for k in range(N):
             for l in range(k + 1, N):
